@@ -7,7 +7,10 @@ import (
 	"strings"
 	"testing"
 
+	"github.com/robfig/soy"
+	"github.com/robfig/soy/ast"
 	"github.com/robfig/soy/soyhtml"
+	"github.com/robfig/soy/template"
 	"pgregory.net/rapid"
 
 	"verif/harness/gen"
@@ -319,6 +322,11 @@ func mutants(base *ref.Program, limit int) []mutant {
 				insertAt(&t.Body, 0, ref.Cmd{K: "let", Var: "ij", Expr: &ref.Expr{Op: "int", I: 1}}, printVar("ij"))
 				return true
 			})
+			add("loop variable named ij", func(p *ref.Program) bool {
+				t := &p.Files[fi].Templates[ti]
+				insertAt(&t.Body, 0, ref.Cmd{K: "for", Style: (fi + ti) % 2, Var: "ij", Expr: &ref.Expr{Op: "list", Args: []*ref.Expr{{Op: "int", I: 1}}}, Body: []ref.Cmd{{K: "text", Text: "x"}}})
+				return true
+			})
 			add("params declared in soydoc and header", func(p *ref.Program) bool {
 				t := &p.Files[fi].Templates[ti]
 				if len(t.Params) == 0 {
@@ -442,12 +450,53 @@ func checkC07(c gen.ProgCase) Verdict {
 		}
 		return nil
 	}
+	// mutants made by a parse pass of the application (Bundle.AddParsePass): the rules hold for the trees
+	// that the compilation hands out, whoever shaped them
+	passMutants := func() error {
+		names, srcs := gen.Sources(&c.Prog)
+		compileWith := func(pass func(template.Registry) error) (err error, pn interface{}) {
+			b := soy.NewBundle()
+			for i := range names {
+				b.AddTemplateString(names[i], srcs[i])
+			}
+			if len(c.Prog.Globals) > 0 {
+				b.AddGlobalsMap(toDataMap(c.Prog.Globals))
+			}
+			b.AddParsePass(pass)
+			pn = catch(func() { _, err = b.Compile() })
+			return
+		}
+		if err, pn := compileWith(func(template.Registry) error { return nil }); err != nil || pn != nil {
+			return fmt.Errorf("parse pass [changes nothing]: the compiler rejects a bundle that satisfies every rule: %v %v\n%s", err, pn, showSources(names, srcs))
+		}
+		err, pn := compileWith(func(reg template.Registry) error {
+			if len(reg.Templates) == 0 {
+				return nil
+			}
+			tn := reg.Templates[len(reg.Templates)/2].Node
+			tn.Body.Nodes = append(tn.Body.Nodes, &ast.PrintNode{Pos: tn.Pos, Arg: &ast.DataRefNode{Pos: tn.Pos, Key: "zzNope"}})
+			return nil
+		})
+		if pn != nil {
+			return fmt.Errorf("parse pass [adds a print of $zzNope]: compiler panicked: %v\n%s", pn, showSources(names, srcs))
+		}
+		if err == nil {
+			return fmt.Errorf("parse pass [adds a print of $zzNope to a template]: the compiled bundle refers to a name that nothing declares, but the compiler accepts it\n%s", showSources(names, srcs))
+		}
+		if c07rec != nil {
+			c07rec.add("pass_mutants_rejected", 1)
+		}
+		return nil
+	}
 	var err error
 	if !finishes(4*watchdogLimit(), func() {
 		if err = judge("generated valid bundle", &c.Prog, true); err != nil {
 			return
 		}
 		if err = textMutants(); err != nil {
+			return
+		}
+		if err = passMutants(); err != nil {
 			return
 		}
 		for _, m := range mutants(&c.Prog, scale(150, 600)) {
